@@ -228,6 +228,15 @@ func opAPIErr() error {
 					body, _ = json.Marshal(l)
 				case "missingfields":
 					body = []byte(`[{}]`)
+				case "absurdlength":
+					if k > 0 {
+						continue // one instance is enough (3 MB of JSON)
+					}
+					l := make([]any, 35000+rng.Intn(3000))
+					for i := range l {
+						l[i] = item(fmt.Sprintf("%064x", i+1), i%7)
+					}
+					body, _ = json.Marshal(l)
 				}
 			case "GET merkleroot":
 				n, np := num(P(0))
